@@ -25,7 +25,8 @@ type Event struct {
 	ID   int64         `json:"id,omitempty"`
 	S    string        `json:"s,omitempty"`
 	Err  string        `json:"err,omitempty"`
-	A, B int64         `json:"a,omitempty"`
+	A    int64         `json:"a,omitempty"`
+	B    int64         `json:"b,omitempty"`
 }
 
 // History is an append-only, goroutine-safe event log.
@@ -380,12 +381,17 @@ func (e *Env) ReadLog(raw *kgo.Client, topic string, partition int32, isolation 
 			if last < off {
 				continue
 			}
-			if b.Attributes&0x7 != 0 {
-				return nil, 0, fmt.Errorf("compressed batch in raw read not supported")
-			}
 			control := b.Attributes&0x20 != 0
 			txn := b.Attributes&0x10 != 0
 			recs := b.Records
+			if codec := b.Attributes & 0x7; codec != 0 {
+				// compression itself is C19's subject; here the client's decompressor is trusted
+				var derr error
+				recs, derr = kgo.DefaultDecompressor().Decompress(recs, kgo.CompressionCodecType(codec))
+				if derr != nil {
+					return nil, 0, fmt.Errorf("raw read: decompress: %v", derr)
+				}
+			}
 			for i := int32(0); i < b.NumRecords; i++ {
 				var r kmsg.Record
 				// length-prefixed record
